@@ -292,6 +292,77 @@ def count_paths(P, R, rule='C19.MPT.1', disp=None):
     R.floor(rule, 5)
 
 
+def search_discipline(P, R, rule='C19.GRD.3'):
+    """Membership, removal and lower bound all rest on the splay search bringing the sought key (or its neighbour) to the
+    root.  Three structural consequences: (a) the descent of the search stops only where the key was found or the tree
+    ends - every edge out of its loop tests the comparison result or a child pointer, nothing else (a step limit turns
+    a deep tree into "not found"); (b) whoever calls the search uses what it returns - the answer that decides between
+    the root and its neighbour is the search's own, not an earlier comparison; (c) once the search has found the key, a
+    removal goes through with it: a failed remove is returned only for a missing set, an empty tree or a key that was
+    not found."""
+    sp = P.need_fn('set_splay')
+    n = 0
+    # (a) the descent loop
+    cmps = [b for b in sp.reachable_blocks() if any(t.ev['k'] in ('store', 'call') and (P.call_slot(t) == 'set::compare' or (t.ev.get('rhs') or {}).get('k') == 'callref' and 'compare' in sx((t.ev.get('rhs') or {}).get('fexpr') or {})) for t in sp.block_sites(b))]
+    loops = []
+    for b in sp.reachable_blocks():
+        fwd = sp.reach([e.dst for e in sp.out[b]])
+        if b in fwd:
+            loops.append(b)
+    loop = set(loops)
+    if not loop:
+        raise AnalysisBroken('the splay search has no descent loop')
+    for b in sorted(loop):
+        for e in sp.out[b]:
+            if e.dst in loop:
+                continue
+            r = e.rel() if e.cond is not None and e.label not in ('case', 'default') else None
+            ok = False
+            if r:
+                l = r[0]
+                if is_var(l) and 'int' in l.get('t', '') and const_of(r[2]) == 0 and any((t.ev.get('rhs') or {}).get('k') == 'callref' for t in sp.local_defs(l['name'])):
+                    ok = True       # the comparison result
+                if isinstance(l, dict) and l.get('k') == 'mem' and l.get('field') in ('l', 'r') and const_of(r[2]) == 0:
+                    ok = True       # no child in that direction
+                if isinstance(l, dict) and l.get('k') == 'callref':
+                    ok = True
+            n += 1
+            R.ob(rule, ok, sp, 'the descent of the splay search is left only on "found" or "no child that way" (%s)' % e.describe(), key='descent-exit:%s' % ('ok' if ok else e.describe()))
+    # (b) results used
+    for f in P.unit_fns(UNIT):
+        for s in f.calls('set_splay'):
+            used = any((t.ev.get('rhs') or t.ev.get('init') or {}).get('ev') == s.ev.get('id') for t in f.sites() if t.ev['k'] in ('store', 'decl'))
+            if not used:
+                for b in f.blocks:
+                    c = f.term_cond(b)
+                    if c is not None and any(isinstance(x, dict) and x.get('k') == 'callref' and x.get('ev') == s.ev.get('id') for x in walk(c)):
+                        used = True
+                for t in f.sites():
+                    if t.ev['k'] == 'ret' and any(isinstance(x, dict) and x.get('k') == 'callref' and x.get('ev') == s.ev.get('id') for x in walk(t.ev.get('val'))):
+                        used = True
+            # a search of a SUBTREE for a key known to lie beyond it (root re-pointed at a child just before) only
+            # re-roots that subtree at its extreme element: its result says nothing
+            reroot = any(t.ev['k'] == 'store' and is_field(t.ev['lhs'], 'root', 'set') and isinstance(t.ev.get('rhs'), dict) and t.ev['rhs'].get('k') == 'mem' and t.ev['rhs'].get('field') in ('l', 'r')
+                         for t in f.block_sites(s.bid)[:s.idx])
+            n += 1
+            R.ob(rule, used or reroot, s, '%s uses what the search it starts returns%s' % (f.name, ' (re-rooting a subtree: no answer to use)' if reroot and not used else ''), key='search-result-used:%s' % f.name, nontrivial=not reroot)
+    # (c) failed removes
+    rem = P.need_fn('set_remove')
+    for t in rem.sites():
+        if t.ev['k'] == 'ret' and const_of(t.ev.get('val')) == 0:
+            for e in rem.inn[t.bid]:
+                r = e.rel() if e.cond is not None else None
+                if not r:
+                    continue
+                l = r[0]
+                ok = (is_var(l) and l['name'] == rem.params[0]) or (isinstance(l, dict) and l.get('k') == 'mem' and l.get('field') == 'root') or \
+                     (isinstance(l, dict) and l.get('k') == 'callref' and l.get('callee') == 'set_splay') or \
+                     (is_var(l) and any((d.ev.get('rhs') or d.ev.get('init') or {}).get('callee') == 'set_splay' for d in rem.local_defs(l['name'])))
+                n += 1
+                R.ob(rule, ok, t, 'a remove fails only for a missing set, an empty tree or a key the search did not find (reason: %s %s %s)' % (sx(r[0]), r[1], sx(r[2])), key='remove-fails:%s' % ('ok' if ok else sx(r[0])))
+    R.floor(rule, 6)
+
+
 def written_fields(f):
     w = set()
     for s in f.stores():
@@ -568,6 +639,7 @@ def container_rules(P, R, prefix='C19'):
     splay_decides(P, R, prefix + '.MPT.2')
     lower_bound_link(P, R, prefix + '.TAB.1')
     root_checked(P, R, prefix + '.GRD.2')
+    search_discipline(P, R, prefix + '.GRD.3')
 
 
 def run(P, R, tier):
